@@ -31,7 +31,7 @@ COMPONENTS = {'real': ['compiled enspara.info_theory.libinfo (unmodified generat
 ASSUMPTIONS = ['at least one frame per trajectory (zero frames is outside the statement)',
                'state counts >= 2 per feature for channel-capacity normalisation (the routine asserts it)',
                'floating tolerances for the algebraic laws: 1e-9 absolute / relative']
-REACH_EXPECTED = ['weighted_many_states_narrow_type', 'views_sharing_first_element', 'long_trajectory', 'team_ge_2', 'one_thread_per_feature', 'different_feature_counts', 'different_state_counts',
+REACH_EXPECTED = ['pooled_trajectories_serial_variant', 'weighted_many_states_narrow_type', 'views_sharing_first_element', 'long_trajectory', 'team_ge_2', 'one_thread_per_feature', 'different_feature_counts', 'different_state_counts',
                   'mixed_dtypes', 'self_counts', 'invalid_negative', 'invalid_too_large', 'invalid_length', 'invalid_mixed_dtypes', 'pooled_trajectories',
                   'weighted_uniform', 'relabel_invariance', 'permutation_invariance', 'schedule_pair_compared']
 INTS = ('int8', 'int16', 'int32', 'int64', 'uint8', 'uint16', 'uint32', 'uint64')
@@ -290,6 +290,13 @@ def laws(ctx, t, mi, entropy, A, B, jc, na, nb, self_mode, wna, wnb):
                 (np.asarray(Mp).tolist(), I.tolist()))
         ctx.postcond('pooled_counts')
         ctx.hit('pooled_trajectories')
+        if A.shape[1] == B.shape[1]:
+            # the pair-by-pair variant (fills the upper triangle from pooled counts and mirrors it)
+            Ms = ctx.sut(mi.mi_matrix_serial, Xs, Ys, np.full(A.shape[1], wna), np.full(B.shape[1], wnb), False)
+            iu = np.triu_indices(A.shape[1])
+            require(close(np.asarray(Ms)[iu], np.asarray(I)[iu]), 'mi_matrix_not_pooled',
+                    lambda: 'mi_matrix_serial over two pieces %s vs MI of pooled counts %s (upper triangles)' % (np.asarray(Ms).tolist(), I.tolist()))
+            ctx.hit('pooled_trajectories_serial_variant')
     # channel-capacity normalisation
     nx = np.array([t.irange(2, 6) for _ in range(fa)])
     ny = nx if (self_mode and t.flag()) else np.array([t.irange(2, 6) for _ in range(fb)])
